@@ -262,3 +262,26 @@ package wire
 //@   ensures [cb-no-ZE] #nZ == old(#nZ) && #nE == old(#nE)
 //@   ensures [cb-cycle] (old(#cyc) == 0 || old(#cyc) == 1) ==> InStmt(#cyc)
 //@   modifies WriterState(writer.client), Out()
+
+// ---- ParseParameters (C20) ------------------------------------------------------------
+// Relative to the list of regexp matches (what the expression matches is regexp's
+// business): total, bounded, zero-typed, and the counting rules of the property.
+
+//@ func ParseParameters
+//@   props C20 C04
+//@   ensures [zero-oids] each(result, p, p == 0)
+//@   atreturn [count-anonymous] maxPos(matches, len(matches)) == 0 ==> len(result) == anonCount(matches, len(matches))
+//@   atreturn [count-positional] anonCount(matches, len(matches)) == 0 ==> len(result) == maxPos(matches, len(matches))
+//@   atreturn [bounded] len(result) <= anonCount(matches, len(matches)) + 65535 && cap(result) <= 2 * (len(matches) + 65535)
+//@   modifies nothing
+//@   loop 0
+//@     invariant [range] -1 <= $index && $index + 1 <= len(matches)
+//@     invariant [lower] len(parameters) >= maxPos(matches, $index + 1)
+//@     invariant [upper] len(parameters) <= maxPos(matches, $index + 1) + anonCount(matches, $index + 1)
+//@     invariant [anon-nonneg] anonCount(matches, $index + 1) >= 0 && maxPos(matches, $index + 1) >= 0 && maxPos(matches, $index + 1) <= 65535
+//@     invariant [count-anonymous] maxPos(matches, $index + 1) == 0 ==> len(parameters) == anonCount(matches, $index + 1)
+//@     invariant [count-positional] anonCount(matches, $index + 1) == 0 ==> len(parameters) == maxPos(matches, $index + 1)
+//@     invariant [zero-oids] each(parameters, p, p == 0)
+//@     invariant [own-array] arr(parameters) > old(#alloc)
+//@     invariant [matches] each(matches, m, len(m) == 2 && (m[1] == "" || ufb("digits", m[1])))
+//@     decreases len(matches) - $index
